@@ -364,11 +364,169 @@ theorem ite_bv_bool2bv (n : Nat) (c : Bool) (sf : Bool) :
 theorem and_31 (x : Nat) : x &&& 31 = x % 32 := Nat.and_two_pow_sub_one_eq_mod x 5
 theorem and_63 (x : Nat) : x &&& 63 = x % 64 := Nat.and_two_pow_sub_one_eq_mod x 6
 
+theorem extract0_eq_lo32 {n} (x : BitVec n) : x.extractLsb' 0 32 = lo32 x := by
+  apply BitVec.eq_of_toNat_eq
+  simp [lo32, BitVec.extractLsb'_toNat]
+
+theorem lo32_immI64 (w : BitVec 32) : lo32 (immI 64 w) = immI 32 w := by
+  apply BitVec.eq_of_toNat_eq
+  simp only [lo32, immI, BitVec.toNat_setWidth, BitVec.toNat_signExtend, BitVec.msb_eq_decide,
+    BitVec.extractLsb'_toNat]
+  have := w.isLt
+  split <;> omega
+
 /-- evaluation of an expression of the `expected` table to a `BitVec` term -/
 macro "rv_eval" : tactic => `(tactic|
   simp [Isa.xlen, Isa.shBits, operands, accessBits, evalE, readOpnd_reg, readOpnd_cstOf, readOpnd_mem8, readOpnd_mem16,
         readOpnd_mem32, readOpnd_mem64, memAddr, mkCst_bv, mk_eq_bv, setIf, w32, tstV_bit, sextV_bv, zextV_bv,
         slcV_bv, sextV_bv_same, zextV_bv_same, ite_bv_bool2bv, ofInt_immI, ofInt_immS, ofInt_immB, ofInt_immJ,
-        ofInt_immU', and_31, and_63, shamt_rv32, shamt_rv64, shamtW_rv64])
+        ofInt_immU', and_31, and_63, shamt_rv32, shamt_rv64, shamtW_rv64, extract0_eq_lo32, lo32_immI64])
+
+theorem storeBytes_mod1 {n} (mem : BitVec n → BitVec 8) (a : BitVec n) (v : Nat) :
+    storeBytes mem a (v % 256) 1 = storeBytes mem a v 1 := storeBytes_mod mem a v 1
+theorem storeBytes_mod2 {n} (mem : BitVec n → BitVec 8) (a : BitVec n) (v : Nat) :
+    storeBytes mem a (v % 65536) 2 = storeBytes mem a v 2 := storeBytes_mod mem a v 2
+theorem storeBytes_mod4 {n} (mem : BitVec n → BitVec 8) (a : BitVec n) (v : Nat) :
+    storeBytes mem a (v % 4294967296) 4 = storeBytes mem a v 4 := storeBytes_mod mem a v 4
+
+theorem ofInt_neg2 (n : Nat) : BitVec.ofInt n (-2) = ~~~1#n := by
+  have : (-2 : Int) = Int.negSucc 1 := rfl
+  rw [this, BitVec.ofInt_negSucc_eq_not_ofNat]
+
+/-- whole-function evaluation for the few functions that are not of one of the standard shapes -/
+macro "rv_run" : tactic => `(tactic|
+  simp [semIdeal, expected, exec, execAll, execStmt, exec_npc, npc, writeLoc_reg_bv, writeLoc_pc_bv, set_withPc,
+        operands, evalE, readOpnd_reg, readOpnd_cstOf, mkCst_bv, mk_eq_bv,
+        ofInt_immI, ofInt_immJ, ofInt_immU', ofInt_neg2])
+
+/-! ### one theorem per base mnemonic: the expected DSL term means what the manual says -/
+section
+variable (isa : Isa) (w : BitVec 32) (σ : State isa.xlen)
+
+theorem ok_LUI : semIdeal (expected isa .LUI) (operands isa .LUI w) σ = some (exec isa .LUI w σ) :=
+  semIdeal_wr _ rfl (by rv_eval)
+theorem ok_AUIPC : semIdeal (expected isa .AUIPC) (operands isa .AUIPC w) σ = some (exec isa .AUIPC w σ) := by
+  by_cases h : fRd w = 0 <;> rv_run <;> simp [h]
+theorem ok_JAL : semIdeal (expected isa .JAL) (operands isa .JAL w) σ = some (exec isa .JAL w σ) := by
+  by_cases h : fRd w = 0 <;> rv_run <;> simp [h]
+theorem ok_JALR : semIdeal (expected isa .JALR) (operands isa .JALR w) σ = some (exec isa .JALR w σ) := by
+  by_cases h : fRd w = 0 <;> rv_run <;> simp [h, writeLoc_pc_bv]
+
+theorem ok_BEQ : semIdeal (expected isa .BEQ) (operands isa .BEQ w) σ = some (exec isa .BEQ w σ) :=
+  semIdeal_branch _ (immB _ w) (by rv_eval) (by rv_eval)
+theorem ok_BNE : semIdeal (expected isa .BNE) (operands isa .BNE w) σ = some (exec isa .BNE w σ) :=
+  semIdeal_branch _ (immB _ w) (by rv_eval) (by rv_eval)
+theorem ok_BLT : semIdeal (expected isa .BLT) (operands isa .BLT w) σ = some (exec isa .BLT w σ) :=
+  semIdeal_branch _ (immB _ w) (by rv_eval) (by rv_eval)
+theorem ok_BGE : semIdeal (expected isa .BGE) (operands isa .BGE w) σ = some (exec isa .BGE w σ) :=
+  semIdeal_branch _ (immB _ w) (by rv_eval) (by rv_eval)
+theorem ok_BLTU : semIdeal (expected isa .BLTU) (operands isa .BLTU w) σ = some (exec isa .BLTU w σ) :=
+  semIdeal_branch _ (immB _ w) (by rv_eval) (by rv_eval)
+theorem ok_BGEU : semIdeal (expected isa .BGEU) (operands isa .BGEU w) σ = some (exec isa .BGEU w σ) :=
+  semIdeal_branch _ (immB _ w) (by rv_eval) (by rv_eval)
+
+theorem ok_LB : semIdeal (expected isa .LB) (operands isa .LB w) σ = some (exec isa .LB w σ) := by
+  revert σ; cases isa <;> intro σ <;> exact semIdeal_ld _ rfl (by rv_eval)
+theorem ok_LH : semIdeal (expected isa .LH) (operands isa .LH w) σ = some (exec isa .LH w σ) := by
+  revert σ; cases isa <;> intro σ <;> exact semIdeal_ld _ rfl (by rv_eval)
+theorem ok_LW : semIdeal (expected isa .LW) (operands isa .LW w) σ = some (exec isa .LW w σ) := by
+  revert σ; cases isa <;> intro σ <;> exact semIdeal_ld _ rfl (by rv_eval)
+theorem ok_LBU : semIdeal (expected isa .LBU) (operands isa .LBU w) σ = some (exec isa .LBU w σ) := by
+  revert σ; cases isa <;> intro σ <;> exact semIdeal_ld _ rfl (by rv_eval)
+theorem ok_LHU : semIdeal (expected isa .LHU) (operands isa .LHU w) σ = some (exec isa .LHU w σ) := by
+  revert σ; cases isa <;> intro σ <;> exact semIdeal_ld _ rfl (by rv_eval)
+
+theorem ok_SB : semIdeal (expected isa .SB) (operands isa .SB w) σ = some (exec isa .SB w σ) := by
+  revert σ; cases isa <;> intro σ <;>
+  · refine (semIdeal_st (k := 1) ((σ.get (fRs2 w)).extractLsb' 0 (8 * 1)) rfl (by rv_eval)).trans ?_
+    simp [exec, memAddr, ofInt_immS, storeBytes_mod1]
+theorem ok_SH : semIdeal (expected isa .SH) (operands isa .SH w) σ = some (exec isa .SH w σ) := by
+  revert σ; cases isa <;> intro σ <;>
+  · refine (semIdeal_st (k := 2) ((σ.get (fRs2 w)).extractLsb' 0 (8 * 2)) rfl (by rv_eval)).trans ?_
+    simp [exec, memAddr, ofInt_immS, storeBytes_mod2]
+theorem ok_SW : semIdeal (expected isa .SW) (operands isa .SW w) σ = some (exec isa .SW w σ) := by
+  revert σ; cases isa <;> intro σ
+  · refine (semIdeal_st (k := 4) (σ.get (fRs2 w)) rfl (by rv_eval)).trans ?_
+    simp [exec, memAddr, ofInt_immS]
+  · refine (semIdeal_st (k := 4) ((σ.get (fRs2 w)).extractLsb' 0 (8 * 4)) rfl (by rv_eval)).trans ?_
+    simp [exec, memAddr, ofInt_immS, storeBytes_mod4]
+
+theorem ok_ADDI : semIdeal (expected isa .ADDI) (operands isa .ADDI w) σ = some (exec isa .ADDI w σ) :=
+  semIdeal_wr _ rfl (by rv_eval)
+theorem ok_SLTI : semIdeal (expected isa .SLTI) (operands isa .SLTI w) σ = some (exec isa .SLTI w σ) :=
+  semIdeal_wr _ rfl (by rv_eval)
+theorem ok_SLTIU : semIdeal (expected isa .SLTIU) (operands isa .SLTIU w) σ = some (exec isa .SLTIU w σ) :=
+  semIdeal_wr _ rfl (by rv_eval)
+theorem ok_XORI : semIdeal (expected isa .XORI) (operands isa .XORI w) σ = some (exec isa .XORI w σ) :=
+  semIdeal_wr _ rfl (by rv_eval)
+theorem ok_ORI : semIdeal (expected isa .ORI) (operands isa .ORI w) σ = some (exec isa .ORI w σ) :=
+  semIdeal_wr _ rfl (by rv_eval)
+theorem ok_ANDI : semIdeal (expected isa .ANDI) (operands isa .ANDI w) σ = some (exec isa .ANDI w σ) :=
+  semIdeal_wr _ rfl (by rv_eval)
+theorem ok_SLLI : semIdeal (expected isa .SLLI) (operands isa .SLLI w) σ = some (exec isa .SLLI w σ) := by
+  revert σ; cases isa <;> intro σ <;> exact semIdeal_wr _ rfl (by rv_eval)
+theorem ok_SRLI : semIdeal (expected isa .SRLI) (operands isa .SRLI w) σ = some (exec isa .SRLI w σ) := by
+  revert σ; cases isa <;> intro σ <;> exact semIdeal_wr _ rfl (by rv_eval)
+theorem ok_SRAI : semIdeal (expected isa .SRAI) (operands isa .SRAI w) σ = some (exec isa .SRAI w σ) := by
+  revert σ; cases isa <;> intro σ <;> exact semIdeal_wr _ rfl (by rv_eval)
+
+theorem ok_ADD : semIdeal (expected isa .ADD) (operands isa .ADD w) σ = some (exec isa .ADD w σ) :=
+  semIdeal_wr _ rfl (by rv_eval)
+theorem ok_SUB : semIdeal (expected isa .SUB) (operands isa .SUB w) σ = some (exec isa .SUB w σ) :=
+  semIdeal_wr _ rfl (by rv_eval)
+theorem ok_SLL : semIdeal (expected isa .SLL) (operands isa .SLL w) σ = some (exec isa .SLL w σ) := by
+  revert σ; cases isa <;> intro σ <;> exact semIdeal_wr _ rfl (by rv_eval)
+theorem ok_SLT : semIdeal (expected isa .SLT) (operands isa .SLT w) σ = some (exec isa .SLT w σ) :=
+  semIdeal_wr _ rfl (by rv_eval)
+theorem ok_SLTU : semIdeal (expected isa .SLTU) (operands isa .SLTU w) σ = some (exec isa .SLTU w σ) :=
+  semIdeal_wr _ rfl (by rv_eval)
+theorem ok_XOR : semIdeal (expected isa .XOR) (operands isa .XOR w) σ = some (exec isa .XOR w σ) :=
+  semIdeal_wr _ rfl (by rv_eval)
+theorem ok_SRL : semIdeal (expected isa .SRL) (operands isa .SRL w) σ = some (exec isa .SRL w σ) := by
+  revert σ; cases isa <;> intro σ <;> exact semIdeal_wr _ rfl (by rv_eval)
+theorem ok_SRA : semIdeal (expected isa .SRA) (operands isa .SRA w) σ = some (exec isa .SRA w σ) := by
+  revert σ; cases isa <;> intro σ <;> exact semIdeal_wr _ rfl (by rv_eval)
+theorem ok_OR : semIdeal (expected isa .OR) (operands isa .OR w) σ = some (exec isa .OR w σ) :=
+  semIdeal_wr _ rfl (by rv_eval)
+theorem ok_AND : semIdeal (expected isa .AND) (operands isa .AND w) σ = some (exec isa .AND w σ) :=
+  semIdeal_wr _ rfl (by rv_eval)
+
+theorem ok_FENCE : semIdeal (expected isa .FENCE) (operands isa .FENCE w) σ = some (exec isa .FENCE w σ) := by
+  simp [semIdeal, expected, exec, execAll, exec_npc]
+theorem ok_FENCE_I : semIdeal (expected isa .FENCE_I) (operands isa .FENCE_I w) σ = some (exec isa .FENCE_I w σ) := by
+  simp [semIdeal, expected, exec, execAll, exec_npc]
+theorem ok_EBREAK : semIdeal (expected isa .EBREAK) (operands isa .EBREAK w) σ = some (exec isa .EBREAK w σ) := by
+  simp [semIdeal, expected, exec, execAll]
+end
+
+/-! RV64I only -/
+section
+variable (w : BitVec 32) (σ : State Isa.rv64.xlen)
+theorem ok_LWU : semIdeal (expected .rv64 .LWU) (operands .rv64 .LWU w) σ = some (exec .rv64 .LWU w σ) :=
+  semIdeal_ld _ rfl (by rv_eval)
+theorem ok_LD : semIdeal (expected .rv64 .LD) (operands .rv64 .LD w) σ = some (exec .rv64 .LD w σ) :=
+  semIdeal_ld _ rfl (by rv_eval)
+theorem ok_SD : semIdeal (expected .rv64 .SD) (operands .rv64 .SD w) σ = some (exec .rv64 .SD w σ) := by
+  refine (semIdeal_st (k := 8) (σ.get (fRs2 w)) rfl (by rv_eval)).trans ?_
+  simp [exec, memAddr, ofInt_immS]
+theorem ok_ADDIW : semIdeal (expected .rv64 .ADDIW) (operands .rv64 .ADDIW w) σ = some (exec .rv64 .ADDIW w σ) :=
+  semIdeal_wr _ rfl (by rv_eval)
+theorem ok_SLLIW : semIdeal (expected .rv64 .SLLIW) (operands .rv64 .SLLIW w) σ = some (exec .rv64 .SLLIW w σ) :=
+  semIdeal_wr _ rfl (by rv_eval)
+theorem ok_SRLIW : semIdeal (expected .rv64 .SRLIW) (operands .rv64 .SRLIW w) σ = some (exec .rv64 .SRLIW w σ) :=
+  semIdeal_wr _ rfl (by rv_eval)
+theorem ok_SRAIW : semIdeal (expected .rv64 .SRAIW) (operands .rv64 .SRAIW w) σ = some (exec .rv64 .SRAIW w σ) :=
+  semIdeal_wr _ rfl (by rv_eval)
+theorem ok_ADDW : semIdeal (expected .rv64 .ADDW) (operands .rv64 .ADDW w) σ = some (exec .rv64 .ADDW w σ) :=
+  semIdeal_wr _ rfl (by rv_eval)
+theorem ok_SUBW : semIdeal (expected .rv64 .SUBW) (operands .rv64 .SUBW w) σ = some (exec .rv64 .SUBW w σ) :=
+  semIdeal_wr _ rfl (by rv_eval)
+theorem ok_SLLW : semIdeal (expected .rv64 .SLLW) (operands .rv64 .SLLW w) σ = some (exec .rv64 .SLLW w σ) :=
+  semIdeal_wr _ rfl (by rv_eval)
+theorem ok_SRLW : semIdeal (expected .rv64 .SRLW) (operands .rv64 .SRLW w) σ = some (exec .rv64 .SRLW w σ) :=
+  semIdeal_wr _ rfl (by rv_eval)
+theorem ok_SRAW : semIdeal (expected .rv64 .SRAW) (operands .rv64 .SRAW w) σ = some (exec .rv64 .SRAW w σ) :=
+  semIdeal_wr _ rfl (by rv_eval)
+end
 
 end Amoco.Rv
